@@ -237,7 +237,7 @@ pub fn run(ctx: &Ctx) {
             check_frame(&s, &v, l)
         });
     }
-    let n = ctx.tier.pick(6_000, 200_000);
+    let n = ctx.tier.pick(60_000, 600_000);
     ctx.par_proptest(
         "random-raw",
         n,
@@ -256,7 +256,7 @@ pub fn run(ctx: &Ctx) {
     ctx.par_proptest("random-trees", n, || gen::arb_typed(scfg.clone(), ValCfg { max_len: 600, max_seq: 4 }), |(s, v), l| check_frame(s, v, l));
 
     // sequences
-    let n = ctx.tier.pick(8_000, 200_000);
+    let n = ctx.tier.pick(80_000, 800_000);
     ctx.par_proptest(
         "frame-sequences",
         n,
